@@ -1,7 +1,8 @@
 #!/usr/bin/env python3
 """apply each seeded patch to /repo, run the given checks, undo; print which checks raise a violation"""
 import sys, os, subprocess, json, glob
-ROOT = '/verif'
+ROOT = os.path.dirname(os.path.dirname(os.path.abspath(__file__)))
+REPO = os.environ.get('VERIF_REPO', '/repo')
 dirs = sys.argv[1:] or sorted(glob.glob(ROOT + '/seeded/*/'))
 ALL = ['C%02d' % i for i in range(1, 21)]
 for d in dirs:
@@ -12,8 +13,8 @@ for d in dirs:
     name = os.path.basename(d)
     prop = name.split('-')[-1][:3] if name.split('-')[-1].startswith('C') else None
     props = os.environ.get('PROPS', '').split() or ([prop] if prop else ALL)
-    assert subprocess.run(['git', '-C', '/repo', 'status', '--porcelain', '--untracked-files=no'], capture_output=True, text=True).stdout.strip() == '', '/repo dirty'
-    r = subprocess.run(['git', '-C', '/repo', 'apply', patch])
+    assert subprocess.run(['git', '-C', REPO, 'status', '--porcelain', '--untracked-files=no'], capture_output=True, text=True).stdout.strip() == '', 'repo dirty'
+    r = subprocess.run(['git', '-C', REPO, 'apply', patch])
     if r.returncode != 0:
         print(name, 'PATCH DOES NOT APPLY'); continue
     try:
@@ -24,4 +25,5 @@ for d in dirs:
             res[p] = ('DETECTED ' + ('(no-failing-input)' if v and 'no-failing-input-found' in v[0] else '(with input)')) if v else 'missed'
         print(name, json.dumps(res), flush=True)
     finally:
-        subprocess.run(['git', '-C', '/repo', 'checkout', '--', '.'])
+        subprocess.run(['git', '-C', REPO, 'checkout', '--', '.'])
+        subprocess.run('git -C ' + ROOT + ' checkout -- evidence lean/Bma400/Generated.lean lean/Bma400/GeneratedEnc.lean lean/Bma400/GeneratedBld.lean lean/Bma400/GeneratedApi.lean lean/Bma400/GeneratedFrames.lean', shell=True)
